@@ -110,6 +110,8 @@ def jobs(specs: List[Spec], tier: str, only: Optional[str]) -> List[Tuple[int, i
             widths = tuple(x for x in widths if x >= 32)
         for w in widths:
             for p in plist:
+                if p.get('minw', 0) > w:
+                    continue
                 if only and only not in f'{sp.name}/w{w}/' + ','.join(f'{k}={v}' for k, v in p.items()):
                     continue
                 out.append((i, w, p))
